@@ -25,8 +25,13 @@ use allsorts::gpos::{self, Info, Placement};
 use allsorts::gsub::{FeatureInfo, Features, GlyphOrigin, RawGlyph, RawGlyphFlags};
 use allsorts::layout::{new_layout_cache, GDEFTable, LayoutTable, GPOS};
 use allsorts::tables::kern::KernTable;
+use allsorts::tables::variable_fonts::fvar::Tuple;
+use allsorts::tables::F2Dot14;
 use proptest::prelude::*;
 use std::collections::BTreeMap;
+
+#[path = "c05_ext.rs"]
+pub mod ext;
 
 pub struct C05;
 
@@ -114,6 +119,10 @@ pub struct Program {
     pub kerning: Vec<bool>,
     /// every mark has a zero font advance (needed for the RTL position check)
     pub zero_advance_marks: bool,
+    /// number of variation axes (an fvar table is written when > 0)
+    pub axes: u16,
+    /// normalised location (raw F2Dot14 per axis) passed to the shaping calls; None = no tuple
+    pub tuple: Option<Vec<i16>>,
 }
 
 struct Universe {
@@ -195,7 +204,7 @@ fn gen_value(t: &mut Tape, fmt: u8) -> Value {
 }
 
 fn gen_anchor(t: &mut Tape) -> AnchorM {
-    AnchorM { x: t.coord(), y: t.coord(), fmt: 1 + t.below(3) as u8, point: t.below(40) as u16 }
+    AnchorM { x: t.coord(), y: t.coord(), fmt: 1 + t.below(3) as u8, point: t.below(40) as u16, dev: [DevM::None; 2] }
 }
 
 fn gen_flags(t: &mut Tape, u: &Universe, gdef: Option<&GdefModel>, ltype: u16) -> Flags {
@@ -633,6 +642,7 @@ pub fn build_program(tape: &[u32]) -> Program {
             mark_attach: if attach.is_empty() && t.chance(50) { None } else { Some(ClassDefM { map: attach, fmt: 1 + t.below(3) as u8 }) },
             minor: if mark_sets.is_empty() { [0u16, 0, 2, 3][t.below(4)] } else { [2u16, 3][t.below(2)] },
             mark_sets,
+            ivs: None,
         })
     } else {
         None
@@ -830,7 +840,7 @@ fn finish_program(
         })
         .collect();
     let kerning = (0..strings.len()).map(|i| i == 0 || !t.chance(25)).collect();
-    Program { nglyphs: n + 1, gdef, gpos, kern, advances, strings, custom, lang, kerning, zero_advance_marks }
+    Program { nglyphs: n + 1, gdef, gpos, kern, advances, strings, custom, lang, kerning, zero_advance_marks, axes: 0, tuple: None }
 }
 
 // ---------------------------------------------------------------------------------------------
@@ -879,6 +889,13 @@ fn build(p: &Program) -> Result<Built, TooBig> {
     }
     if let Some(t) = &kern {
         f.extra.push((*b"kern", t.clone()));
+    }
+    if p.axes > 0 {
+        let tags: [[u8; 4]; 4] = [*b"wght", *b"wdth", *b"opsz", *b"TEST"];
+        let axes: Vec<crate::fontgen::var::AxisModel> = (0..p.axes as usize)
+            .map(|i| crate::fontgen::var::AxisModel { tag: tags[i % 4], min: 100 << 16, default: 400 << 16, max: 900 << 16, flags: 0, name_id: 256 + i as u16 })
+            .collect();
+        f.extra.push((*b"fvar", crate::fontgen::var::fvar_table(&axes, &[], 0)));
     }
     Ok(Built { font: f.build(), gpos, gdef, kern, kern_layouts })
 }
@@ -951,12 +968,31 @@ fn fail(sig: &str, msg: String) -> Fail {
     Fail::new(format!("C05:{}", sig), msg)
 }
 
+/// a `Tuple` over raw F2Dot14 values (the only safe constructor of `OwnedTuple` normalises user
+/// coordinates through fvar/avar, which is not what is under test here)
+fn with_tuple<R>(loc: Option<&[i16]>, f: impl FnOnce(Option<Tuple<'_>>) -> R) -> R {
+    match loc {
+        None => f(None),
+        Some(l) => {
+            let v: Vec<F2Dot14> = l.iter().map(|x| F2Dot14::from_raw(*x)).collect();
+            // SAFETY: `v` outlives the call and holds `v.len()` initialised values
+            let t = unsafe { Tuple::from_raw_parts(v.as_ptr(), v.len()) };
+            f(Some(t))
+        }
+    }
+}
+
 fn observe(font_bytes: &[u8], s: &[GlyphIn], custom: &[[u8; 4]], lang: Option<[u8; 4]>, kerning: bool) -> Result<Observed, Fail> {
+    observe_at(font_bytes, s, custom, lang, kerning, None)
+}
+
+fn observe_at(font_bytes: &[u8], s: &[GlyphIn], custom: &[[u8; 4]], lang: Option<[u8; 4]>, kerning: bool, loc: Option<&[i16]>) -> Result<Observed, Fail> {
     let fd = ReadScope::new(font_bytes).read::<FontData<'_>>().map_err(|e| fail("font-read", format!("{:?}", e)))?;
     let prov = fd.table_provider(0).map_err(|e| fail("font-read", format!("{:?}", e)))?;
     let mut font = Font::new(prov).map_err(|e| fail("font-read", format!("Font::new: {:?}", e)))?;
     let features = Features::Custom(custom.iter().map(|t| FeatureInfo { feature_tag: tag_u32(t), alternate: None }).collect());
-    let (infos, shape_err) = match font.shape(raw_glyphs(s), tag_u32(b"latn"), lang.map(|l| tag_u32(&l)), &features, None, kerning) {
+    let shaped = with_tuple(loc, |tuple| font.shape(raw_glyphs(s), tag_u32(b"latn"), lang.map(|l| tag_u32(&l)), &features, tuple, kerning));
+    let (infos, shape_err) = match shaped {
         Ok(i) => (i, None),
         Err((e, i)) => (i, Some(format!("{:?}", e))),
     };
@@ -973,7 +1009,7 @@ fn observe(font_bytes: &[u8], s: &[GlyphIn], custom: &[[u8; 4]], lang: Option<[u
 }
 
 /// direct entry point: tables parsed individually, explicit feature list
-fn observe_direct(b: &Built, s: &[GlyphIn], tags: &[[u8; 4]], lang: Option<[u8; 4]>) -> Result<Option<Vec<Info>>, Fail> {
+fn observe_direct(b: &Built, s: &[GlyphIn], tags: &[[u8; 4]], lang: Option<[u8; 4]>, loc: Option<&[i16]>) -> Result<Option<Vec<Info>>, Fail> {
     let gpos_bytes = match &b.gpos {
         Some(g) => g,
         None => return Ok(None),
@@ -1000,16 +1036,18 @@ fn observe_direct(b: &Built, s: &[GlyphIn], tags: &[[u8; 4]], lang: Option<[u8; 
         None => return Ok(None),
     };
     let mut infos = Info::init_from_glyphs(gdef.as_ref(), raw_glyphs(s));
-    gpos::apply_features(
-        &cache,
-        &cache.layout_table,
-        gdef.as_ref(),
-        kern,
-        langsys,
-        tags.iter().map(|t| FeatureInfo { feature_tag: tag_u32(t), alternate: None }),
-        None,
-        &mut infos,
-    )
+    with_tuple(loc, |tuple| {
+        gpos::apply_features(
+            &cache,
+            &cache.layout_table,
+            gdef.as_ref(),
+            kern,
+            langsys,
+            tags.iter().map(|t| FeatureInfo { feature_tag: tag_u32(t), alternate: None }),
+            tuple,
+            &mut infos,
+        )
+    })
     .map_err(|e| fail("apply-error", format!("gpos::apply_features: {:?}", e)))?;
     Ok(Some(infos))
 }
@@ -1025,7 +1063,7 @@ impl<'a> RefCtx<'a> {
             (Some(m), Some(bytes)) => Some((m, KernBytes { bytes, layouts: &self.b.kern_layouts })),
             _ => None,
         };
-        Interp::new(self.p.gdef.as_ref(), self.p.gpos.as_ref(), kern, devs, s).run(steps)
+        Interp::new(self.p.gdef.as_ref(), self.p.gpos.as_ref(), kern, devs, s).at_location(self.p.tuple.as_deref()).run(steps)
     }
 }
 
@@ -1128,7 +1166,44 @@ fn diff_all(p: &Program, s: &[GlyphIn], obs: &Observed, exp: &RunResult, devs: u
             }
         }
         rec_classes.push("level2:ltr-cursive".into());
-        rec_classes.push("level2-skipped:rtl-cursive".into());
+        // RTL: the cross-stream (y) result does not depend on the consumer's pen convention, and
+        // neither does the pen-relative offset of a glyph that is neither linked nor attached.
+        // The line-direction (x) effect of a link is not asserted in RTL: the module documents
+        // only "pen incremented by the advance of each glyph as processed" and the plausible RTL
+        // readings (pen moved before / after drawing, visual order) disagree on which advance
+        // carries the adjustment.
+        for (i, o) in exp.out.iter().enumerate() {
+            match &o.attach {
+                Attach::None => {
+                    if !target[i] && (rtl[i].2, rtl[i].3) != (o.dx, o.dy) {
+                        return Some(("position-mismatch-rtl".into(), format!("RTL glyph {} (gid {}): offset ({}, {}) expected ({}, {})", i, s[i].gid, rtl[i].2, rtl[i].3, o.dx, o.dy)));
+                    }
+                }
+                Attach::Mark { base, ba, ma, post } => {
+                    let twice = if devs & dev::POS_BASE_TWICE != 0 && matches!(exp.out[*base].attach, Attach::None) { exp.out[*base].dy } else { 0 };
+                    let want = rtl[*base].3 + ba.1 as i32 - ma.1 as i32 + post.1 + twice;
+                    if rtl[i].3 != want {
+                        return Some(("position-mismatch-rtl".into(), format!("RTL glyph {} (gid {}): mark y {} expected {} (base {} at y {}); state {:?}", i, s[i].gid, rtl[i].3, want, base, rtl[*base].3, o)));
+                    }
+                }
+                Attach::Cursive { next, rtl: rtl_flag, exit, entry } => {
+                    let y_ok = rtl[*next].3 + entry.1 as i32 == rtl[i].3 + exit.1 as i32;
+                    if !y_ok {
+                        if any_flag_clear && devs & dev::CURS_Y_CLEAR != 0 {
+                            rec_classes.push("cursive-rtl:y-known-wrong-flag-clear".into());
+                        } else {
+                            return Some((
+                                "position-mismatch-rtl".into(),
+                                format!("RTL cursive link {}->{} (rtl flag {}): exit anchor at y {} but entry anchor at y {} (exit {:?}, entry {:?})", i, next, rtl_flag, rtl[i].3 + exit.1 as i32, rtl[*next].3 + entry.1 as i32, exit, entry),
+                            ));
+                        }
+                    } else {
+                        rec_classes.push("cursive-rtl:y-aligned".into());
+                    }
+                }
+            }
+        }
+        rec_classes.push("level2:rtl-cursive-y".into());
         return None;
     }
     match refm::place_ltr(&exp.out, &font_adv, devs) {
@@ -1258,11 +1333,11 @@ pub fn check_program(p: &Program, rec: &mut Rec) -> CaseResult {
             continue;
         }
         evals += 1;
-        let obs = observe(&b.font, s, &p.custom, p.lang, kerning)?;
+        let obs = observe_at(&b.font, s, &p.custom, p.lang, kerning, p.tuple.as_deref())?;
         let ctx_msg = |d: &str| {
             format!(
-                "string [{}] kerning={} steps {:?}: {}\nprogram: gdef {:?}\ngpos {:?}\nkern {:?}\nadvances {:?}",
-                render_string(s), kerning, steps, d, p.gdef, p.gpos, p.kern, p.advances
+                "string [{}] kerning={} tuple {:?} steps {:?}: {}\nprogram: gdef {:?}\ngpos {:?}\nkern {:?}\nadvances {:?}",
+                render_string(s), kerning, p.tuple, steps, d, p.gdef, p.gpos, p.kern, p.advances
             )
         };
         if std::env::var("C05_DEBUG").is_ok() {
@@ -1403,7 +1478,7 @@ pub fn check_program(p: &Program, rec: &mut Rec) -> CaseResult {
         classes.extend(cls);
         // the direct entry point must agree with Font::shape (first string only; same features)
         if si == 0 && kerning {
-            if let Some(infos) = observe_direct(&b, s, &tags, p.lang)? {
+            if let Some(infos) = observe_direct(&b, s, &tags, p.lang, p.tuple.as_deref())? {
                 if let Some(d) = diff_infos(&infos, s, &used.out) {
                     return Err(fail("direct-mismatch", ctx_msg(&format!("gpos::apply_features disagrees with the result accepted for Font::shape: {}", d))));
                 }
@@ -1458,7 +1533,7 @@ fn single_xa(glyphs: &[Gid], xa: i16) -> Subtable {
 }
 
 fn anchor(x: i16, y: i16) -> AnchorM {
-    AnchorM { x, y, fmt: 1, point: 0 }
+    AnchorM { x, y, fmt: 1, point: 0, dev: [DevM::None; 2] }
 }
 
 /// glyphs 1,2 bases, 3,4,5 marks (attach classes 2,1,1), 6 ligature; mark set 0 = {4}
@@ -1470,6 +1545,7 @@ fn pinned_program(lookups: Vec<Lookup>, features: Vec<(&[u8; 4], Vec<u16>)>, ker
         mark_attach: Some(ClassDefM { map: attach, fmt: 2 }),
         mark_sets: vec![Cov::new(vec![4], 1)],
         minor: 2,
+        ivs: None,
     };
     let has_gpos = !lookups.is_empty();
     let feats: Vec<Feature> = features.iter().map(|(t, l)| Feature { tag: **t, lookups: l.clone() }).collect();
@@ -1486,7 +1562,20 @@ fn pinned_program(lookups: Vec<Lookup>, features: Vec<(&[u8; 4], Vec<u16>)>, ker
         lang: None,
         kerning: vec![true],
         zero_advance_marks: true,
+        axes: 0,
+        tuple: None,
     }
+}
+
+/// one axis, one region (0, 1, 1), delta set (0,0) = 40; shaped at the region's peak
+fn pinned_variation(p: &mut Program) {
+    use crate::refmodel::varmodel::{AxisRegion, IvsModel};
+    let ivs = IvsModel { regions: vec![vec![AxisRegion { start: 0, peak: 16384, end: 16384 }]], subtables: vec![(vec![0], vec![vec![40]])] };
+    if let Some(g) = p.gdef.as_mut() {
+        g.ivs = Some(ivs);
+    }
+    p.axes = 1;
+    p.tuple = Some(vec![16384]);
 }
 
 pub fn pinned_case(k: u32) -> Program {
@@ -1604,6 +1693,31 @@ pub fn pinned_case(k: u32) -> Program {
             None,
             &[1, 2],
         ),
+        dev::VAR_PLACE_STATIC0 => {
+            // xPlacement 0 + xPlaDevice -> VariationIndex (0,0): delta 40 at the peak of the only region
+            let mut v = Value::default();
+            v.dev[0] = DevM::Var { outer: 0, inner: 0 };
+            let mut p = pinned_program(vec![simple_lookup(1, plain, Subtable::Single1 { cov: cov(&[1]), fmt: 0x11, value: v })], vec![(b"kern", vec![0])], None, &[1, 2]);
+            pinned_variation(&mut p);
+            p
+        }
+        dev::ANCHOR_VAR => {
+            let mut ba = anchor(300, 400);
+            ba.fmt = 3;
+            ba.dev[0] = DevM::Var { outer: 0, inner: 0 };
+            let mut p = pinned_program(
+                vec![simple_lookup(
+                    4,
+                    plain,
+                    Subtable::MarkBase { mark_cov: cov(&[3]), base_cov: cov(&[1]), class_count: 1, marks: vec![(0, anchor(10, 20))], bases: vec![vec![Some(ba)]] },
+                )],
+                vec![(b"mark", vec![0])],
+                None,
+                &[1, 3],
+            );
+            pinned_variation(&mut p);
+            p
+        }
         dev::CURS_Y_CLEAR => pinned_program(
             vec![simple_lookup(
                 3,
@@ -1648,7 +1762,7 @@ pub fn pinned_status(k: u32) -> Result<(PinnedStatus, String), Fail> {
     let tags: Vec<[u8; 4]> = vec![*b"dist", *b"kern", *b"mark", *b"mkmk", *b"test"];
     let steps = if p.gpos.is_some() { refm::steps_for(p.gpos.as_ref(), p.kern.is_some(), b"latn", None, &tags).0 } else { vec![Step::KernTable] };
     let rc = RefCtx { p: &p, b: &b };
-    let obs = observe(&b.font, s, &p.custom, None, true)?;
+    let obs = observe_at(&b.font, s, &p.custom, None, true, p.tuple.as_deref())?;
     let r0 = rc.run(s, &steps, 0);
     let kern_unreadable = match (&p.kern, &b.kern) {
         (Some(m), Some(bytes)) => refm::kern2_rejected(m, &KernBytes { bytes, layouts: &b.kern_layouts }),
@@ -1720,6 +1834,10 @@ pub fn present_devs() -> u32 {
     })
 }
 
+fn strategy_len(n: usize) -> impl Strategy<Value = Vec<u32>> {
+    proptest::collection::vec(any::<u32>(), n..=n)
+}
+
 fn strategy() -> impl Strategy<Value = Vec<u32>> {
     proptest::collection::vec(any::<u32>(), TAPE_LEN..=TAPE_LEN)
 }
@@ -1738,7 +1856,14 @@ impl Property for C05 {
          and RTL (only where every glyph between a base and its mark has zero advance), are compared with an interpreter written from the OpenType spec. \
          14 known deviations of allsorts are defect models of the interpreter: 14 pinned minimal cases decide per run which of them allsorts exhibits; a mismatching string passes only if the reference \
          with a subset of those deviations reproduces allsorts' output exactly (classes attributed:*), anything else fails. \
-         Non-trivial = the spec reference produced a non-zero adjustment or an attachment for some string; distinct by hash of font bytes + strings."
+         Non-trivial = the spec reference produced a non-zero adjustment or an attachment for some string; distinct by hash of font bytes + strings. \
+         Extension sections: device-variation = a tape program whose value formats get device bits and whose anchors become format 3, every device offset pointing at NULL, a hinting Device table (formats 1-3) \
+         or a VariationIndex table into a generated GDEF ItemVariationStore (1-3 axes, 1-4 valid regions, 1-2 subtables with word and byte deltas), shaped with no tuple or at a generated normalised location \
+         (expected value = static + floor(sum scalar x delta + 0.5); near-ties excluded). kern-tables = kern tables of 1-4 subtables mixing format 0 and format 2 in any order with all coverage bits, in kern-only fonts \
+         (fallback) and GPOS fonts without a kern feature. gsub-marklig = fonts with a GSUB of 1-3 LigatureSubst lookups (ligatures of 1-4 components incl. ligatures of ligatures; IgnoreMarks / mark attachment type / \
+         mark filtering set / plain) and a MultipleSubst lookup (on bases and on marks) under ccmp/liga, GDEF, and GPOS MarkLigPos (+ MarkBasePos, MarkMarkPos); strings are expansions of ligatures with marks after \
+         components; Font::shape applies GSUB then GPOS; the reference applies the two GSUB lookup types itself and associates every mark with the ligature component it followed in the original glyph sequence \
+         (two independent formulations cross-checked), then the GPOS interpreter; 4 further deviations (2 variation, 2 component bookkeeping) are pinned and attributed by defect model like the others."
             .to_string()
     }
     fn assumptions(&self) -> Vec<String> {
@@ -1751,7 +1876,11 @@ impl Property for C05 {
             "RTL absolute positions are asserted only when every glyph between a base and its mark has zero advance; cursive links are checked LTR only, as coincidence of exit and entry anchors".into(),
             "kern format 2 left class values are offsets from the subtable start (Apple reference; OpenType text 'adding the class values to the address of the subtable'); a format 2 subtable is only generated as the last subtable".into(),
             "excluded and counted (classes excluded:*): accumulated values outside i16, placement combined with a cursive link on the same glyph, mark-to-mark across different ligature components, ligature component index beyond the component count, hits in kern 'minimum' or cross-stream subtables".into(),
-            "never generated: mark filtering set combined with markAttachmentType/ignoreMarks on one lookup; ignoreBase/ignoreLigatures on mark attachment lookups; marks in cursive coverage; non-marks in mark coverage; sequence indices beyond the input; a lookup in two features; device/VariationIndex tables; GSUB (ligature components are fed as liga_component_pos)".into(),
+            "never generated: mark filtering set combined with markAttachmentType/ignoreMarks on one lookup; ignoreBase/ignoreLigatures on mark attachment lookups; marks in cursive coverage; non-marks in mark coverage; sequence indices beyond the input; a lookup in two features; in section programs: device/VariationIndex tables and GSUB (ligature components are fed as liga_component_pos)".into(),
+            "hinting Device tables (delta formats 1-3) have no effect on shaping in font units; a VariationIndex delta is the interpolated delta of its delta set rounded half up, values within 0.02 of a tie are not asserted; invalid regions, delta-set indices out of range and VariationIndex tables without a store are not generated".into(),
+            "a mark belongs to the ligature component it followed in the original glyph sequence; LigatureAttach tables have one component record per original component (a ligature made of ligatures has the sum); ligature lookups skip nothing but marks; MultipleSubst is not applied to ligature glyphs, marks decompose into marks and bases into bases; a base split by MultipleSubst whose parts become different components of one ligature is excluded and counted".into(),
+            "cursive links in RTL: only the cross-stream (y) coincidence of exit and entry anchors, the y of attached marks and the offsets of unlinked glyphs are asserted; the x effect is not (the pen convention for RTL is undocumented and the plausible readings put the adjustment on different glyphs)".into(),
+            "kern format 2: a pair with a glyph outside a class table (class 0) in an override or minimum subtable is excluded (whether it counts as present is unspecified); kern version 1 (Apple) headers are not generated: KernTable rejects every version but 0".into(),
         ]
     }
     fn run(&self, ctx: &mut Ctx) {
@@ -1775,5 +1904,28 @@ impl Property for C05 {
         });
         let n = ctx.cases(250_000, 4_000_000);
         ctx.section("programs", n, strategy(), |tape, rec| check_case(tape, rec));
+        // --- extension sections (see c05_ext.rs) ---
+        ctx.enumerate("pinned-findings-gsub", ext::xdev::ALL.len() as u64, true, |i, rec| {
+            let k = ext::xdev::ALL[i as usize];
+            let (st, text) = ext::xpinned_status(k)?;
+            match st {
+                PinnedStatus::Present => {
+                    rec.class(&format!("finding-present:{}", ext::xdev::name(k)));
+                    return Err(fail(ext::xdev::name(k), text));
+                }
+                PinnedStatus::Absent => rec.class(&format!("finding-absent:{}", ext::xdev::name(k))),
+                PinnedStatus::Unexplained => return Err(fail("pinned-case", text)),
+            }
+            rec.sample(|| text.clone());
+            rec.nontrivial();
+            rec.hash_u64(0x1000 + k as u64);
+            Ok(())
+        });
+        let n = ctx.cases(28_000, 600_000);
+        ctx.section("device-variation", n, strategy_len(TAPE_LEN + ext::DEV_TAIL), |tape, rec| check_program(&ext::build_program_dev(tape), rec));
+        let n = ctx.cases(14_000, 400_000);
+        ctx.section("kern-tables", n, strategy_len(TAPE_LEN + ext::KERN_TAIL), |tape, rec| check_program(&ext::build_program_kern(tape), rec));
+        let n = ctx.cases(28_000, 600_000);
+        ctx.section("gsub-marklig", n, strategy_len(ext::LIGA_TAPE), |tape, rec| ext::check_liga_case(tape, rec));
     }
 }
